@@ -15,7 +15,7 @@ import (
 type CrashOutcome struct {
 	Block   int64
 	Point   string // "before-commit", "mid-block", or "after:<store>" (the durable write that completed last)
-	Outcome string // "ok" | "panic@<call>" | "hash-mismatch@<call>" | "bad-height" | "open-failed"
+	Outcome string // "ok" | "panic@<call>" | "hash-mismatch@<call>" | "answer-mismatch@<call>" | "bad-height" | "open-failed"
 	Detail  string
 }
 
@@ -122,6 +122,19 @@ func recoverFrom(h *History, at int, point, dir string) CrashOutcome {
 		for _, d := range o.Delivers {
 			if d.Panic != "" {
 				res.Outcome, res.Detail = "panic@DeliverTx", firstWords(d.Panic)
+				return res
+			}
+		}
+		if i < len(h.Obs) {
+			// the replayed blocks must answer as they did on the node that never crashed
+			for j, d := range o.Delivers {
+				if j < len(h.Obs[i].Delivers) && d.Code != h.Obs[i].Delivers[j].Code {
+					res.Outcome, res.Detail = "answer-mismatch@DeliverTx", fmt.Sprintf("block %d tx %d: code %d, a node that never crashed: %d", i+1, j, d.Code, h.Obs[i].Delivers[j].Code)
+					return res
+				}
+			}
+			if fmt.Sprint(o.ValUpdates) != fmt.Sprint(h.Obs[i].ValUpdates) {
+				res.Outcome, res.Detail = "answer-mismatch@EndBlock", fmt.Sprintf("block %d: validator updates %v, a node that never crashed: %v", i+1, o.ValUpdates, h.Obs[i].ValUpdates)
 				return res
 			}
 		}
